@@ -488,10 +488,18 @@ def main():
         if "--tier" in a: tier = a[a.index("--tier") + 1]
         return check(a[1], tier)
     if a[0] == "replay":
-        variant = a[a.index("--variant") + 1] if "--variant" in a else "rel"
+        # the replay file names the build variant (and valgrind) it was found under in its trailing comment
+        txt = open(a[1]).read()
+        m = re.search(r"^# property=\S+ sig=\S+ variant=(\w+)( \(under valgrind\))?", txt, re.M)
+        variant = a[a.index("--variant") + 1] if "--variant" in a else (m.group(1) if m else "rel")
         exe = build(variant)
         cmd = [exe, "replay", a[1]] + (["--trace"] if "--trace" in a else [])
-        r = subprocess.run(cmd)
+        kw = {}
+        if m and m.group(2):
+            cmd, kw = wrap(dict(valgrind=True), cmd)
+        r = subprocess.run(cmd, **kw)
+        if r.returncode != 0:
+            print("replay: the run died (exit status %d): that is the violation for crash signatures" % r.returncode)
         return r.returncode
     if a[0] == "selftest-det":
         n = int(a[a.index("--n") + 1]) if "--n" in a else 600
